@@ -130,16 +130,16 @@ PROPS = {
     'C04': {
         'level': 'other',
         'explanation': 'Decided: (Kani, real code) finish_sketch computes A*z0+B for the leader and adds z0^2-z1-z2 for the helper only; next_message guards (length 1 and non-zero sum => Err; lengths other than 1/3 or mismatched => Err); verifier_shares_to_message requires exactly two shares of the same field; verify_next accepts only the four matching (state, message) pairs and releases an output share only from RoundTwo+Done. (Verus) over these contracts: an honest one-hot sketch sums to zero, and a programmed value d leaves the residue (d^2-d)*r^2. Not decided: that every non-one-hot or mis-authenticated vector is rejected except with small probability (Schwartz-Zippel), IDPF public-share canonical decoding (bitvec).',
-        'trusted': ['finish_sketch harness uses the memoised contract stub for Field64 multiplication'],
-        'quick': {'verus': [('sketch_lemma', 'unit')],
+        'trusted': ['finish_sketch harness uses the memoised contract stub for Field64 multiplication', 'unit poplar1_sketch: abstract field Fe (operator contracts = C09 field layer), Prng::get as an element stream with a cursor (C11), merge_vector contract (C13 Kani units)'],
+        'quick': {'verus': [('sketch_lemma', 'unit'), ('poplar1_sketch', 'unit')],
                   'kani': [{'files': KC + ['f255_util.rs', 'c04_poplar1.rs'], 'harnesses': ['pop_finish_sketch_formula', 'pop_next_message_guards', 'pop_vs2m_guards', 'pop_verify_next_variants'], 'timeout': 600}]},
         'thorough': {'kani': [{'files': KC + ['f255_util.rs', 'c04_poplar1.rs'], 'harnesses': ['pop_corr_shares_formula'], 'timeout': 2400}]},
     },
     'C03': {
         'level': 'other',
-        'explanation': 'Decided: the honest-case sketch identity (Verus lemma over the finish_sketch / correlated-randomness contracts: for a one-hot 0/1 vector with the programmed authenticator the two verifier shares sum to zero, and likewise for the all-zero vector), the finish_sketch and next_message contracts those lemmas are stated over (Kani, real code), and exact-length / no-overflow arithmetic of Poplar1AggregationParam::encoded_len for every u16 level. Not decided: IDPF path correctness over all levels (C06 per level), composition over prefix sets and the heavy-hitters driver (bitvec), the level arithmetic inside verify_init (whole-function harness out of reach; the u16 overflow there was found by review and repaired, see known_findings.json).',
+        'explanation': 'Decided: the honest-case sketch identity (Verus lemma over the finish_sketch / correlated-randomness contracts: for a one-hot 0/1 vector with the programmed authenticator the two verifier shares sum to zero, and likewise for the all-zero vector), the finish_sketch and next_message contracts those lemmas are stated over (Kani, real code), and exact-length / no-overflow arithmetic of Poplar1AggregationParam::encoded_len for every u16 level. Decided (Verus, abstract field, extracted text, unbounded): compute_next_corr_shares consumes exactly three elements of each correlated-randomness stream per level and its shares reconstruct A = -2a+auth, B = a^2+b-a*auth+c; the fast-forward loop of verify_init (fragment lifted verbatim) skips exactly 3*level elements for EVERY u16 level without overflow - so client and aggregator read (a,b,c) of level l at stream offsets [3l,3l+3); finish_sketch and next_message formulas for any field. Not decided: IDPF path correctness over all levels (C06 per level), composition over prefix sets and the heavy-hitters driver (bitvec).',
         'trusted': [],
-        'quick': {'verus': [('sketch_lemma', 'unit')],
+        'quick': {'verus': [('sketch_lemma', 'unit'), ('poplar1_sketch', 'unit')],
                   'kani': [{'files': KC + ['f255_util.rs', 'idpf_util.rs', 'c07_codec.rs', 'c07_poplar1.rs', 'c04_poplar1.rs'], 'harnesses': ['pop_finish_sketch_formula', 'pop_next_message_guards', 'pop_agg_param_encoded_len'], 'timeout': 600}]},
         'thorough': {'kani': [{'files': KC + ['f255_util.rs', 'c04_poplar1.rs'], 'harnesses': ['pop_corr_shares_formula'], 'timeout': 2400}]},
     },
